@@ -3,6 +3,8 @@ package main
 // vp primitives and library intrinsics.
 
 import (
+	"regexp"
+	"sync"
 	"fmt"
 	"go/constant"
 	"go/types"
@@ -25,6 +27,7 @@ type KnownFinding struct {
 	Region   string   `json:"region"`
 	What     string   `json:"what"`
 	Commit   string   `json:"commit,omitempty"`
+	reH, reA *regexp.Regexp
 }
 
 func (e *Exec) argStr(v Value) string { return e.concString(v) }
@@ -48,6 +51,7 @@ func (e *Exec) stat(id string) *AssertStat {
 func (e *Exec) rawCheck(base []*Term, raw []string) SatResult {
 	e.solver.Push()
 	defer e.solver.Pop()
+	e.defineFacts()
 	for _, t := range base {
 		e.solver.Assert(t)
 	}
@@ -61,22 +65,42 @@ func (e *Exec) rawCheck(base []*Term, raw []string) SatResult {
 	return r
 }
 
+// defineFacts makes the harness's named facts and concrete inputs visible to region predicates.
+func (e *Exec) defineFacts() {
+	for _, name := range e.factOrder {
+		t := e.facts[name]
+		e.solver.send(fmt.Sprintf("(define-fun %s () %s %s)", smtName(name), t.sort, e.solver.ref(t)))
+	}
+}
+
+func (e *Exec) setFact(name string, t *Term) {
+	if _, ok := e.facts[name]; !ok {
+		e.factOrder = append(e.factOrder, name)
+	}
+	e.facts[name] = t
+}
+
 func (e *Exec) applicableRegions(id string) []*KnownFinding {
 	var out []*KnownFinding
 	for _, k := range e.known {
-		if k.Status != "known" || k.Harness != e.harness || k.Assert != id {
+		if k.Status != "known" || !k.matches(e.harness, id) {
 			continue
 		}
 		ok := true
 		for _, v := range k.Vars {
-			if _, has := e.inputIdx[v]; !has {
+			if _, has := e.facts[v]; has {
+				continue
+			}
+			if iv, has := e.inputIdx[v]; !has || iv.Term.IsConst() {
 				ok = false
 			}
 		}
 		if ok {
 			// make sure the variables are declared in the solver
 			for _, v := range k.Vars {
-				e.solver.ref(e.inputIdx[v].Term)
+				if iv, has := e.inputIdx[v]; has {
+					e.solver.ref(iv.Term)
+				}
 			}
 			out = append(out, k)
 		}
@@ -97,18 +121,27 @@ func (e *Exec) doAssert(id string, cond *Term, fault bool, msg string) {
 	e.obs = append(e.obs, Observation{ID: id, Kind: "assert", Term: cond})
 	if v, ok := cond.boolVal(); ok && v {
 		bump(&st.Proved)
+		if *flagLearn != "" {
+			e.learnCell(id, "proved")
+		}
 		return
 	}
 	nc := e.tb.Not(cond)
 	r := e.feasible(nc)
 	if r == Unsat {
 		bump(&st.Proved)
+		if *flagLearn != "" {
+			e.learnCell(id, "proved")
+		}
 		return
 	}
 	if r == UnknownRes {
 		bump(&st.Inconclusive)
 		e.assume(cond)
 		return
+	}
+	if *flagLearn != "" {
+		e.learnCell(id, "violated")
 	}
 	regions := e.applicableRegions(id)
 	var negs []string
@@ -156,6 +189,7 @@ func (e *Exec) recordViolation(id string, nc *Term, negs []string, fault bool, m
 		return
 	}
 	e.solver.Push()
+	e.defineFacts()
 	e.solver.Assert(nc)
 	for _, r := range negs {
 		e.solver.send("(assert " + r + ")")
@@ -439,9 +473,16 @@ func init() {
 		return nil
 	})
 	vp("Assert", func(e *Exec, _ *frame, a []Value) Value {
-		e.doAssert(e.argStr(a[0]), a[1].(*Term), false, "")
+		id := e.argStr(a[0])
+		if e.prop != "" && !strings.HasPrefix(id, e.prop+".") && !strings.HasPrefix(id, "ALL.") {
+			// assertion of another property sharing this harness: logged for replay comparison, not checked
+			e.obs = append(e.obs, Observation{ID: id, Kind: "assert", Term: a[1].(*Term)})
+			return nil
+		}
+		e.doAssert(id, a[1].(*Term), false, "")
 		return nil
 	})
+	vp("Oracle", func(e *Exec, _ *frame, a []Value) Value { return nil })
 	vp("Cover", func(e *Exec, _ *frame, a []Value) Value {
 		id := e.argStr(a[0])
 		e.res.mu.Lock()
@@ -506,6 +547,28 @@ func init() {
 		}
 		return nil
 	})
+	vp("Thorough", func(e *Exec, _ *frame, a []Value) Value {
+		v := uint64(0)
+		if e.tier == "thorough" {
+			v = 1
+		}
+		e.addInput("__thorough", "choose", e.tb.BV(64, v))
+		return e.tb.Bool(v == 1)
+	})
+	vp("Fact", func(e *Exec, _ *frame, a []Value) Value {
+		t := a[1].(*Term)
+		if t.sort.K == SBV {
+			t = e.tb.Bv2Int(t, true)
+		}
+		e.setFact(e.argStr(a[0]), t)
+		return nil
+	})
+	vp("FactBool", func(e *Exec, _ *frame, a []Value) Value {
+		e.setFact(e.argStr(a[0]), a[1].(*Term))
+		return nil
+	})
+	vp("And", func(e *Exec, _ *frame, a []Value) Value { return e.tb.And(a[0].(*Term), a[1].(*Term)) })
+	vp("Or", func(e *Exec, _ *frame, a []Value) Value { return e.tb.Or(a[0].(*Term), a[1].(*Term)) })
 	vp("Symbolic", func(e *Exec, _ *frame, a []Value) Value { return e.tb.Bool(true) })
 	vp("Note", func(e *Exec, _ *frame, a []Value) Value { e.notes = append(e.notes, e.argStr(a[0])); return nil })
 
@@ -691,4 +754,49 @@ func (e *Exec) snapshotGlobals() {
 		walkPtr(p, g.Pkg.Pkg.Name()+"."+g.Name(), 0)
 	}
 	e.globalCells = cells
+}
+
+var learnMu sync.Mutex
+var learned = map[string]map[string]*[2]int{} // harness|assert -> cell -> [violated, proved]
+
+func (e *Exec) learnCell(id, what string) {
+	var parts []string
+	for _, name := range e.factOrder {
+		t := e.facts[name]
+		if t.IsConst() && t.sort.K == SInt && !strings.HasSuffix(name, ".typed") && !strings.HasSuffix(name, ".num") {
+			parts = append(parts, fmt.Sprintf("(= %s %s)", smtName(name), smtInt(t.i)))
+		}
+	}
+	cell := "true"
+	if len(parts) == 1 {
+		cell = parts[0]
+	} else if len(parts) > 1 {
+		cell = "(and " + strings.Join(parts, " ") + ")"
+	}
+	key := e.harness + "|" + id
+	learnMu.Lock()
+	m := learned[key]
+	if m == nil {
+		m = map[string]*[2]int{}
+		learned[key] = m
+	}
+	c := m[cell]
+	if c == nil {
+		c = &[2]int{}
+		m[cell] = c
+	}
+	if what == "violated" {
+		c[0]++
+	} else {
+		c[1]++
+	}
+	learnMu.Unlock()
+}
+
+func (k *KnownFinding) matches(harness, assert string) bool {
+	if k.reH == nil {
+		k.reH = regexp.MustCompile("^(" + k.Harness + ")$")
+		k.reA = regexp.MustCompile("^(" + k.Assert + ")$")
+	}
+	return k.reH.MatchString(harness) && k.reA.MatchString(assert)
 }
